@@ -24,7 +24,7 @@ TRUSTED = ['Lean 4.33 kernel', 'axioms: propext, Classical.choice, Quot.sound', 
            'numpy.linalg.eigvalsh / matrix_rank in the probe (contract)',
            'modelled, not verified: numqi/state/_internal.py, entangle/upb.py, dicke.py, utils.get_tetrahedron_POVM, unique_determine.get_chebshev_orthonormal',
            'literature, not proved: unextendibility of the UPBs; optimality of the closed-form REE/EOF/GME values']
-OPEN_STATEMENTS = []   # round 2: Dicke normalisation and Chebyshev orthonormality are theorems now
+OPEN_STATEMENTS = ['Numqi.C18.Eprobe9Unitary.Statement']   # eq9 bases unitary for every even dim (proved for dim <= 12)
 
 
 def f2b(x):
@@ -274,6 +274,58 @@ def _correspondence_main(ctx):
             ops.append(f'C18 ieof {d} {f2b(a)}'); impl.append(guarded(lambda: np.float64(S.get_Isotropic_eof(d, a))))
     with np.errstate(all='ignore'):
         run(ops, impl, 1e-13, 'f')
+    # array-valued alpha: one call with the whole grid (1-d, 2-d, int), element-wise against the scalar model answers
+    for d in [2, 3, 5]:
+        for fname, opn, grid in [('get_Werner_GME', 'wgme', werner_grid(ctx, d)), ('get_Werner_eof', 'weof', werner_grid(ctx, d)),
+                                 ('get_Isotropic_GME', 'igme', iso_grid(ctx, d)), ('get_Isotropic_eof', 'ieof', iso_grid(ctx, d))]:
+            g = [float(min(1.0, x)) for x in grid]
+            g = g[:(len(g) // 4) * 4]
+            ops_a = [f'C18 {opn} {d} {f2b(a)}' for a in g]
+            mo = common.run_model(ops_a)
+            for shape_tag, arr in [('1d', np.array(g)), ('2d', np.array(g).reshape(4, -1)), ('3d', np.array(g).reshape(2, 2, -1))]:
+                with np.errstate(all='ignore'):
+                    r = guarded(lambda: np.asarray(getattr(S, fname)(d, arr), dtype=np.float64))
+                mv = np.array([b2f(x) for x in mo]).reshape(arr.shape)
+                ok = (not isinstance(r, str)) and r.shape == arr.shape and bool(np.all(np.isnan(r) == np.isnan(mv))) and np.nan_to_num(np.abs(r - mv)).max() <= 1e-13
+                cmp(ctx, f'C18 {opn}-array {d} {shape_tag}', ok, 'model scalars', r, key=f'{opn}-array')
+
+    # closed-form GME of Dicke states (exact rational) and of W-type states (Float, same operation order)
+    ops, impl = [], []
+    for n in list(range(1, 13)) + [20, 33, 64]:
+        for k in sorted(set([0, 1, n // 2, n - 1, n] + [rng.randint(0, n) for _ in range(2)])):
+            ops.append(f'C18 dgme {n} {k}'); impl.append(guarded(lambda: np.float64(S.get_qubit_dicke_state_GME(n, k))))
+    ops.append('C18 dgme 0 0'); impl.append(guarded(lambda: np.float64(S.get_qubit_dicke_state_GME(0, 0))))
+    # (binomials up to C(64,32) ~ 1.8e18 are not exact in binary64: relative 1e-15 on a number <= 1)
+    run(ops, impl, 4e-15, 'rat', key='dgme')
+    ops, impl = [], []
+    trip = [(1.0, 0.0, 0.0), (0.0, 1.0, 0.0), (0.0, 0.0, 1.0), (3 ** -0.5,) * 3, (0.6, 0.8, 0.0), (0.5, 0.5, 0.5 ** 0.5), (0.5 ** 0.5, 0.5, 0.5), (0.6, 0.0, 0.8), (-0.6, 0.48, 0.64), (0.5, 0.5, 0.5), (1.0, 1e-6, 0.0)]
+    for _ in range(20 if ctx.quick() else 300):
+        v = np.array([rng.gauss(0, 1) for _ in range(3)]); v = v / np.linalg.norm(v)
+        if rng.random() < 0.3: v = np.abs(v)
+        trip.append(tuple(float(x) for x in v))
+    for a, b, c in trip:
+        ops.append(f'C18 wtgme {f2b(a)} {f2b(b)} {f2b(c)}'); impl.append(guarded(lambda: np.float64(S.get_Wtype_state_GME(a, b, c))))
+    with np.errstate(all='ignore'):
+        run(ops, impl, 1e-14, 'f', key='wtgme')
+    # element-probing measurements: exact Gaussian-integer tables (eq9: sqrt2 x entry; the returned projectors are the outer products)
+    for kind, dims in [('eq8', [1, 2, 3, 4, 5, 8]), ('eq9', [2, 3, 4, 5, 6, 8, 10, 12])]:
+        for dim in dims:
+            op = f'C18 eprobe {kind} {dim}'
+            r = guarded(lambda: np.asarray(numqi.unique_determine.get_element_probing_POVM(kind, dim)))
+            mo = common.run_model([op])[0]
+            if isinstance(r, str) or mo.startswith('error'):
+                cmp(ctx, op, r == mo, mo, r, key='eprobe'); continue
+            if kind == 'eq8':
+                M = np.array([complex(int(t.split(',')[0]), int(t.split(',')[1])) for t in mo.split(';')]).reshape(2 * dim, dim, dim)
+                cmp(ctx, op, r.shape == M.shape and bool(np.array_equal(r, M)), mo[:100], r, key='eprobe')
+            else:
+                flag, body = mo.split(' ')
+                B = np.array([complex(int(t.split(',')[0]), int(t.split(',')[1])) for t in body.split(';')]).reshape(4 * dim, dim) / math.sqrt(2)
+                P = B[:, :, None] * B[:, None, :].conj()
+                cmp(ctx, op, flag == '1' and r.shape == P.shape and float(np.abs(r - P).max()) <= 1e-15, mo[:100], r, key='eprobe')
+    ops = ['C18 eprobe eq7 4']; 
+    cmp(ctx, ops[0], guarded(lambda: numqi.unique_determine.get_element_probing_POVM('eq7', 4)) == common.run_model(ops)[0], 'error:assert', 'impl', key='eprobe')
+
     # REE: branch tag and value (the entangled branch is the relative entropy to the boundary state, in nats)
     ops, impl = [], []
     for d in [2, 3, 4, 5, 7]:
@@ -786,6 +838,78 @@ def probe(ctx):
                 ctx.fail(f'{name}-ree-generic', f'get_{name}_ree({d},{a}) = {r if isinstance(r, str) else r[1]} disagrees with the generic SDP routine get_ppt_ree = {r if isinstance(r, str) else r[0]}', dict(op=f'{name}-ree-generic', d=d, alpha=float(a)))
             else:
                 ctx.probe_ok((name, 'ree-sdp', d, a))
+
+    # load_upb options never driven elsewhere: random sixparam (args=None), the warning branch, unknown kinds, upper-case kind
+    import io, contextlib
+    buf = io.StringIO()
+    with contextlib.redirect_stdout(buf):
+        r = guarded(lambda: (numqi.entangle.load_upb('sixparam', return_product=True), numqi.entangle.load_upb('sixparam', (np.pi / 2, 1.0, 0.3, 1.0, 1.0, 0.2), return_product=True),
+                             numqi.entangle.load_upb('TILES', return_product=True), numqi.entangle.load_upb('tiles', return_product=True)))
+    if isinstance(r, str) or amax(r[0].conj() @ r[0].T - np.eye(5)) > 1e-10 or r[1].shape != (5, 9) or amax(r[2] - r[3]) > 0 or 'WARNING' not in buf.getvalue():
+        ctx.fail('upb-options', f'load_upb options: random sixparam not orthonormal, missing degenerate-parameter warning, or kind not case-insensitive: {r if isinstance(r, str) else buf.getvalue()[:80]}', dict(op='load_upb', kind='sixparam', args=None))
+    else:
+        ctx.probe_ok('upb-options')
+    for kind in ['john2^8', 'nosuchkind']:
+        if guarded(lambda: numqi.entangle.load_upb(kind)) != 'error:assert':
+            ctx.fail('upb-options', f'load_upb({kind!r}) must raise AssertionError', dict(op='load_upb', kind=kind))
+        else:
+            ctx.probe_ok(('upb-unknown', kind))
+
+    # round 6: the remaining public closed forms / measurement sets, against independent oracles
+    for n in range(1, 11):
+        for k in range(0, n + 1):
+            def f():
+                v = float(S.get_qubit_dicke_state_GME(n, k))
+                # GME = 1 - max over symmetric product states (cos t, sin t)^{(x) n} of |<D|prod>|^2 = C(n,k) cos^{2(n-k)} sin^{2k}
+                ts = np.linspace(0, np.pi / 2, 20001)
+                ov = math.comb(n, k) * np.cos(ts) ** (2 * (n - k)) * np.sin(ts) ** (2 * k)
+                psi = S.Dicke(n - k, k)
+                t0 = math.atan2(math.sqrt(k), math.sqrt(n - k)); x = np.array([math.cos(t0), math.sin(t0)]); prod = x
+                for _ in range(n - 1): prod = np.kron(prod, x)
+                return v, 1 - float(ov.max()), 1 - float(np.dot(prod, psi)) ** 2
+            r = guarded(f)
+            if isinstance(r, str) or not (0 <= r[0] < 1) or abs(r[0] - r[1]) > 1e-6 or abs(r[0] - r[2]) > 1e-12:
+                ctx.fail('dicke-gme', f'get_qubit_dicke_state_GME({n},{k}) = {r if isinstance(r, str) else r[0]} is not 1 - max product-state overlap of Dicke({n - k},{k}) ({r})', dict(op='get_qubit_dicke_state_GME', n=n, k=k))
+            else:
+                ctx.probe_ok(('dgme', n, k))
+    import scipy.optimize
+    for trial in range(6 if ctx.quick() else 60):
+        v = np.abs(np.array([rng.gauss(0, 1) for _ in range(3)])) + (0.0 if trial % 3 else 0.3); v = v / np.linalg.norm(v)
+        a_, b_, c_ = [float(x) for x in v]
+        def f():
+            g = float(S.get_Wtype_state_GME(a_, b_, c_))
+            psi = S.Wtype(np.array([a_, b_, c_]))       # coefficients at |001>,|010>,|100> (index 2^k)
+            def neg(th):
+                q = [np.array([math.cos(t), math.sin(t)]) for t in th]
+                return -float(np.dot(np.kron(np.kron(q[0], q[1]), q[2]), psi)) ** 2
+            best = min(scipy.optimize.minimize(neg, x0, method='Nelder-Mead', options=dict(xatol=1e-10, fatol=1e-14, maxiter=4000)).fun
+                       for x0 in ([0.1, 0.1, 0.1], [1.4, 0.1, 0.1], [0.1, 1.4, 0.1], [0.1, 0.1, 1.4], [0.6, 0.6, 0.6]))
+            return g, 1 + best
+        r = guarded(f)
+        if isinstance(r, str) or not (-1e-12 <= r[0] <= 2 / 3 + 1e-9) or abs(r[0] - r[1]) > 1e-6:
+            ctx.fail('wtype-gme', f'get_Wtype_state_GME({a_},{b_},{c_}) = {r if isinstance(r, str) else r[0]} disagrees with the direct maximisation over product states ({r})', dict(op='get_Wtype_state_GME', a=a_, b=b_, c=c_))
+        else:
+            ctx.probe_ok(('wtgme', trial))
+    for bad in [(0.5, 0.5, 0.5), (1.0, 1e-4, 0.0)]:
+        if guarded(lambda: S.get_Wtype_state_GME(*bad)) != 'error:assert':
+            ctx.fail('wtype-gme', f'get_Wtype_state_GME{bad} must reject unnormalised coefficients', dict(op='get_Wtype_state_GME', a=bad[0], b=bad[1], c=bad[2]))
+    for dim in ([4, 6, 10, 16] if ctx.quick() else [4, 6, 8, 10, 16, 30, 64]):
+        P = guarded(lambda: np.asarray(numqi.unique_determine.get_element_probing_POVM('eq9', dim)))
+        bad = isinstance(P, str) or P.shape != (4 * dim, dim, dim)
+        if not bad:
+            for b_ in range(4):
+                blk = P[b_ * dim:(b_ + 1) * dim]
+                bad = bad or amax(blk.sum(axis=0) - np.eye(dim)) > 1e-12 or amax(np.einsum('iab,jba->ij', blk, blk) - np.eye(dim)) > 1e-12 or amax(blk - blk.conj().transpose(0, 2, 1)) > 1e-15
+        if bad:
+            ctx.fail('eprobe-eq9', f"get_element_probing_POVM('eq9',{dim}): the four blocks are not projective measurements (rank-one orthogonal projectors resolving the identity)", dict(op='eprobe', kind='eq9', dim=dim))
+        else:
+            ctx.probe_ok(('eq9', dim))
+    for dim in [2, 3, 5, 9]:
+        P = guarded(lambda: np.asarray(numqi.unique_determine.get_element_probing_POVM('eq8', dim)))
+        if isinstance(P, str) or P.shape != (2 * dim, dim, dim) or amax(P - P.conj().transpose(0, 2, 1)) > 0 or np.linalg.matrix_rank(P.reshape(2 * dim, -1)) != 2 * dim or amax(P[0] - np.eye(dim)) > 0:
+            ctx.fail('eprobe-eq8', f"get_element_probing_POVM('eq8',{dim}): not 2*dim linearly independent Hermitian operators starting with the identity", dict(op='eprobe', kind='eq8', dim=dim))
+        else:
+            ctx.probe_ok(('eq8', dim))
 
     # UPBs: orthonormal product vectors; complement projector is a PPT state of rank D-|UPB|
     for kind, args in upb_cases(ctx):
